@@ -241,6 +241,7 @@ func genLine(t *rapid.T, geoCoords bool) (orb.LineString, bool) {
 		n = 1
 	}
 	coincident := shape == 3
+	tiny := shape == 4 // distinct vertices whose measured length underflows to (nearly) zero
 	lattice := rapid.Bool().Draw(t, "lattice")
 	ls := make(orb.LineString, n)
 	for i := range ls {
@@ -255,6 +256,9 @@ func genLine(t *rapid.T, geoCoords bool) (orb.LineString, bool) {
 		default:
 			p = orb.Point{rapid.Float64Range(-1000, 1000).Draw(t, "x"), rapid.Float64Range(-1000, 1000).Draw(t, "y")}
 		}
+		if tiny {
+			p = orb.Point{float64(rapid.IntRange(0, 3).Draw(t, "tx")) * 1e-200, float64(rapid.IntRange(0, 3).Draw(t, "ty")) * 1e-170}
+		}
 		ls[i] = p
 		if i > 0 && (coincident || rapid.IntRange(0, 5).Draw(t, "rep") == 0) {
 			ls[i] = ls[i-1]
@@ -266,7 +270,7 @@ func genLine(t *rapid.T, geoCoords bool) (orb.LineString, bool) {
 func TestPropResample(t *testing.T) {
 	stats.Assume("distance functions are planar.Distance, geo.Distance, geo.DistanceHaversine; geo functions get lon/lat inputs with |lat| <= 80")
 	stats.Assume("ToInterval distances are >= total/3000 so that the output stays small")
-	stats.Check(t, 200000, 10000000, func(rt *rapid.T) {
+	stats.Check(t, 1000000, 20000000, func(rt *rapid.T) {
 		c := Case{}
 		c.DF = rapid.SampledFrom([]string{"planar", "planar", "geo", "haversine"}).Draw(rt, "df")
 		ls, isNil := genLine(rt, c.DF != "planar")
@@ -312,6 +316,13 @@ func classify(c Case, ls orb.LineString) {
 		stats.Class("line:all coincident")
 	default:
 		stats.Class("line:positive length")
+		total := 0.0
+		for i := 0; i+1 < len(ls); i++ {
+			total += distFunc(c.DF)(ls[i], ls[i+1])
+		}
+		if total == 0 {
+			stats.Class("line:distinct vertices, measured length 0")
+		}
 	}
 	if c.Mode == "resample" && c.N <= 0 {
 		stats.Class("arg:non-positive N")
